@@ -91,11 +91,12 @@ theorem C20_policy_encoder_one_vs_many (p : Policy) : valueShape p (toJson p) = 
 def C20_policy_outside_grammar_refused_full : Prop :=
   ∀ j : Json, inGrammar j = false → fromJson j = .error .refused
 
-/-- "JSON that is outside the IAM policy grammar is refused" — for every document outside the two
-    regions of the decidable predicate `quirk` (the document is an array; a `Version`/`Effect` is
-    written `{"<name>": null}`). In particular a statement with two principal, two action or two
-    resource blocks and a statement whose principal block has a malformed value are refused (these were
-    two further excluded regions until the reader of `Statement` was repaired). -/
+/-- "JSON that is outside the IAM policy grammar is refused" — for every document outside the one
+    region of the decidable predicate `quirk` (a `Version`/`Effect` is written `{"<name>": null}`). In
+    particular a document that is not an object (an array of the three fields included), a statement
+    with two principal, two action or two resource blocks and a statement whose principal block has a
+    malformed value are refused (these were three further excluded regions until the readers of
+    `Statement` and of `Policy` were repaired). -/
 theorem C20_policy_outside_grammar_refused_partial (j : Json) (hq : quirk j = false)
     (hg : inGrammar j = false) : fromJson j = .error .refused := by
   cases h : fromJson? j with
@@ -115,6 +116,14 @@ theorem C20_policy_accept_iff_partial (j : Json) (hq : quirk j = false) :
     obtain ⟨p, hp, _⟩ := C20_policy_json_stable j hg
     exact ⟨p, hp⟩
 
+/-- "wrong shapes": a document that is not a JSON object — an array (of any length: the three-element
+    array `[version, id, statement]` was accepted until the reader of `Policy` was repaired), a string,
+    a number, a Boolean, null — is refused, whatever it contains -/
+theorem C20_policy_non_object_refused (j : Json) (h : ∀ ms, j ≠ .obj ms) : fromJson j = .error .refused := by
+  cases j with
+  | obj ms => exact absurd rfl (h ms)
+  | _ => rfl
+
 /-- the grammar used in the two theorems above lies inside the published one (which also allows
     numbers and Booleans as condition values) -/
 theorem C20_policy_string_grammar_in_grammar (j : Json) (h : inStringGrammar j = true) : inGrammar j = true := by
@@ -122,7 +131,7 @@ theorem C20_policy_string_grammar_in_grammar (j : Json) (h : inStringGrammar j =
   simp [inGrammar, violation_mono j hv]
 
 /-- the stated shapes are refused with no assumption about the rest of the document: a document is
-    refused as soon as (`headMust`) a `Version` is neither null nor a known version, an `Id` is neither
+    refused as soon as (`headMust`) it is not an object, a `Version` is neither null nor a known version, an `Id` is neither
     null nor a string, or `Statement` is missing; or (`stmtMust`) something standing where a statement
     belongs is not an object, has a `Sid` that is neither string nor null, has no `Effect` or an
     `Effect` other than `Allow`/`Deny`, has no action (resource) block, more than one (under either
@@ -167,12 +176,14 @@ example : inStringGrammar Ex.doc2List = true ∧
 /-- the refusal theorem applies to (and the model refuses) each stated shape -/
 example : ∀ j ∈ [Ex.docUnknownEffect, Ex.docUnknownVersion, Ex.docNumberAction, Ex.docObjectEffect, Ex.docNoAction,
       Ex.docTwoSids, Ex.docBothActions, Ex.docNotActionThenAction, Ex.docResourceTwice, Ex.docBothPrincipals,
-      Ex.docNumberPrincipal, Ex.docStringPrincipal, Ex.docNullPrincipal],
+      Ex.docNumberPrincipal, Ex.docStringPrincipal, Ex.docNullPrincipal, Ex.docArrayForm, Ex.docArrayFormList,
+      Ex.docArrayFormShort, Ex.docArrayFormLong],
     quirk j = false ∧ inGrammar j = false ∧ fromJson? j = none := by decide
 example : ∀ j ∈ [Ex.docUnknownEffect, Ex.docNumberAction, Ex.docObjectEffect, Ex.docNoAction, Ex.docTwoSids,
       Ex.docBothActions, Ex.docNotActionThenAction, Ex.docResourceTwice, Ex.docBothPrincipals,
       Ex.docNumberPrincipal, Ex.docStringPrincipal, Ex.docNullPrincipal],
     ∃ x ∈ statementNodes j, stmtMust x = false := by decide
-example : headMust Ex.docUnknownVersion = false := by decide
+example : headMust Ex.docUnknownVersion = false ∧ headMust Ex.docArrayForm = false := by decide
+example : ∀ ms, Ex.docArrayForm ≠ .obj ms := fun _ h => nomatch h
 
 end S3V.C20
